@@ -64,7 +64,7 @@ def run(P, item):
             if 'C17' in props and nd <= 3 and ctx.check():
                 hh = ctx.stash['h']; m = nice_model(ctx, z3.BoolVal(False), hh, ctx.solver.model())
                 w = model_witness(ctx, m, hh, dict(op='conc'))
-                w.update(progs=progs, newkeys=[_ev(m, k) for k in ctx.stash['newk']], locks=[[str(x) for x in e] for e in ctx.events[ctx.stash['n0']:] if e[0] in ('lock', 'unlock')], deadlock=str(o.res))
+                w.update(progs=progs, newkeys=[_ev(m, k) for k in ctx.stash['newk']], locks=[[str(x) for x in e] for e in ctx.events[ctx.stash['n0']:] if e[0] in ('lock', 'unlock')], deadlock=str(o.res), attempts=[list(b) for b in ctx.blocked])
                 res['failed'].append(dict(prop='C17', clause='no interleaving of core operations leaves every unfinished caller blocked', kind='cconc', msg=str(o.res), cfg=cfg.tag(), op=_ps(progs), witness=w))
             continue
         if o.status == 'panic':
@@ -127,7 +127,7 @@ def replay(f, w):
                 ops.append(f'{op[0]} k{k} {v} 0')
         L.append(f'cthread {ti} ' + ' / '.join(ops))
     ev = [e for e in w['locks'] if e[0] == 'lock']
-    L.append('csched ' + ' '.join(f"{e[1]}:{e[4]}:{e[5]}" for e in ev))
+    L.append('csched ' + ' '.join([f"{e[1]}:{e[4]}:{e[5]}" for e in ev] + [f"{b[0]}:{b[3]}:1:a" for b in (w.get('attempts') or [])]))
     L.append('op crun'); L.append('op dump')
     pk = (w.get('probe') or [987654, 1])[0]
     L.append(f"op {'insert_with_memory' if w['max_memory'] is not None else 'insert'} k{pk} 1 0")
